@@ -17,6 +17,27 @@ Theorem C09_replay_equals_local : forall env env' s r d,
 Proof. exact mx_replay_string_command. Qed.
 Print Assumptions C09_replay_equals_local.
 
+(* EVERY command shape (string or array command line, with or without an `arguments` dictionary; the whole of
+   ResolveArguments with the dictionary threaded through the command line, then per argument set_if before value):
+   when the parent's collect-mode run does not throw, its result is the local result, and the agent, resolving the same
+   command and arguments from the collected dictionary with ANY resolvers env', obtains exactly that result again and
+   leaves the dictionary unchanged.  Same visible hypothesis as above. *)
+Theorem C09_replay_equals_local_all_shapes : forall env env' command arguments r d,
+  mx_no_nested_missing env 2 ->
+  mx_resolve_arguments_r (MxRmCollect false) env command arguments [] = (r, d) ->
+  (forall e, r <> MxCmdThrow e) ->
+  r = mx_resolve_arguments env command arguments /\
+  mx_resolve_arguments_r MxRmReplay env' command arguments d = (r, d).
+Proof. exact mx_replay_all_shapes. Qed.
+Print Assumptions C09_replay_equals_local_all_shapes.
+
+(* the simulation behind it, from any dictionary of true unescaped values (not only the empty one) *)
+Theorem C09_replay_equals_local_all_shapes_sim : forall env env' command arguments,
+  mx_sim env 2 mx_cmd_ok (mx_resolve_arguments_r (MxRmCollect false) env command arguments)
+    (mx_resolve_arguments_r MxRmReplay env' command arguments) (mx_resolve_arguments env command arguments).
+Proof. exact mx_sim_resolve_arguments. Qed.
+Print Assumptions C09_replay_equals_local_all_shapes_sim.
+
 (* the same for every top-level InternalResolveMacros call (command-line elements, argument values, set_if), from any
    dictionary that holds only true unescaped values, replayed on any later dictionary of that kind *)
 Theorem C09_replay_equals_local_call : forall env env' lv esc str,
@@ -49,3 +70,18 @@ Example C09_replay_nonvacuous :
   mx_remote false (mx_w_env [118; 32; 39]) [] mx_w_cmd None = Some (mx_resolve_arguments (mx_w_env [118; 32; 39]) mx_w_cmd None) /\
   mx_plugin_argv (mx_resolve_arguments (mx_w_env [118; 32; 39]) mx_w_cmd None) = MxArgv [[99]; [118; 32; 39]].
 Proof. exact mx_replay_witness_ok. Qed.
+
+(* all shapes: array command line [c, $a$], arguments -k = { value = $a$ } and -l = $b$ with vars.b an ARRAY
+   (repeated key); the parent's run succeeds and records three entries, the agent's result is the local argv *)
+Example C09_replay_all_shapes_nonvacuous :
+  (exists r d, mx_resolve_arguments_r (MxRmCollect false) mx_w_env2 mx_w_cmd2 (Some mx_w_args2) [] = (r, d) /\
+     (forall e, r <> MxCmdThrow e) /\ List.length d = 3%nat) /\
+  mx_remote false mx_w_env2 [] mx_w_cmd2 (Some mx_w_args2) = Some (mx_resolve_arguments mx_w_env2 mx_w_cmd2 (Some mx_w_args2)) /\
+  mx_resolve_arguments mx_w_env2 mx_w_cmd2 (Some mx_w_args2) =
+    MxCmdArr [[99]; [118; 32; 39]; [45; 107]; [118; 32; 39]; [45; 108]; [120]; [45; 108]; [121; 32; 122]].
+Proof. exact mx_replay_witness_all_shapes. Qed.
+
+(* ... and the environment of that example satisfies the hypothesis mx_no_nested_missing (for ALL macro names), so the
+   theorem C09_replay_equals_local_all_shapes applies to it with every premise discharged *)
+Example C09_replay_all_shapes_nonvacuous_hyp : mx_no_nested_missing mx_w_env2 2.
+Proof. exact mx_w_env2_no_nested_missing. Qed.
